@@ -159,6 +159,15 @@ pub enum Trace {
 // ---------------------------------------------------------------- generators
 
 pub fn gen_value(rng: &mut Rng) -> Dec {
+    if rng.chance(1, 25) {
+        // far outside the adapters' limit, at the edges of the scale's integer type: the string form has
+        // no limit and must still round-trip; the JSON-number adapters must refuse
+        let scales: [i64; 12] = [i64::MIN, i64::MIN + 1, i64::MAX, i64::MAX - 1, 1 << 31, -(1 << 31), (1 << 31) - 1, 1 << 32, -(1 << 32), 1_000_000_000_000_000, -1_000_000_000_000_000, -(1 << 31) - 1];
+        let digits = ["1", "7", "12", "999", "100", "123456789012345678901234567890"];
+        let d: &str = *rng.pick(&digits);
+        let neg = rng.chance(1, 2);
+        return Dec::new(neg, d, *rng.pick(&scales));
+    }
     match rng.below(10) {
         // at and around the scale limit of the JSON-number adapters
         0 | 1 => {
